@@ -56,7 +56,7 @@ func previousPeriodKey(kind string, today ymd) string {
 	return periodKeyOracle(kind, a)
 }
 
-func genFlags(r *Rand, doc *GDoc, today ymd) *gFlags {
+func genFlags(r *Rand, doc *GDoc, today ymd, force string) *gFlags {
 	f := &gFlags{dateOK: func(ymd) bool { return true }}
 	var recDates []ymd
 	for _, rec := range doc.Records {
@@ -90,7 +90,11 @@ func genFlags(r *Rand, doc *GDoc, today ymd) *gFlags {
 		f.cli = append(f.cli, flag+"="+val)
 		f.model = append(f.model, mtok)
 	}
-	switch r.Weighted(2, 2, 2, 2, 2, 2, 3, 2, 4) {
+	clause := r.Weighted(2, 2, 2, 2, 2, 2, 3, 2, 4)
+	if force != "" {
+		clause = 8
+	}
+	switch clause {
 	case 0:
 	case 1:
 		a := pickDate()
@@ -172,6 +176,9 @@ func genFlags(r *Rand, doc *GDoc, today ymd) *gFlags {
 	default:
 		kind := Pick(r, []string{"week", "month", "quarter", "year"})
 		last := r.P(1, 2)
+		if force != "" {
+			kind, last = force, r.P(3, 4)
+		}
 		name := "this"
 		if last {
 			name = "last"
@@ -358,11 +365,47 @@ func init() {
 				rec := Pick(r, doc.Records)
 				today, _ = ymd{rec.Y, rec.M, rec.D}.plus(r.Range(-2, 40))
 			}
+			if r.P(1, 3) { // reference dates on period boundaries (first/last day of month, quarter, year; Mondays and Sundays)
+				y := today.y
+				b := Pick(r, []ymd{{y, 1, 1}, {y, 12, 31}, {y, 4, 1}, {y, 3, 31}, {y, 7, 1}, {y, 6, 30}, {y, 10, 1}, {y, 9, 30}, {y, 3, 1}, {y, 2, gDaysIn(y, 2)},
+					{y, today.m, 1}, {y, today.m, gDaysIn(y, today.m)}})
+				if r.P(1, 4) {
+					b, _ = today.plus(1 - oracleWeekday(today.y, today.m, today.d)) // Monday of this week
+					if r.P(1, 2) {
+						b, _ = b.plus(6)
+					}
+				}
+				today = b
+			}
 			// the property's reference dates: neighbours representable, and far enough from the calendar's ends for the shortcuts
 			if !today.ok() || today.y < 1 || today.y > 9998 {
 				today = ymd{2021, 3, 4}
 			}
-			f := genFlags(r, doc, today)
+			force := ""
+			if r.P(1, 5) { // a shortcut clause with the reference date on a boundary of that kind of period, records around it
+				force = Pick(r, []string{"week", "month", "quarter", "year"})
+				y := r.Range(1995, 2030)
+				var b ymd
+				switch force {
+				case "quarter":
+					b = Pick(r, []ymd{{y, 4, 1}, {y, 7, 1}, {y, 10, 1}, {y, 1, 1}, {y, 3, 31}, {y, 6, 30}, {y, 12, 31}, {y, 5, 15}})
+				case "month":
+					mm := r.Range(1, 12)
+					b = Pick(r, []ymd{{y, mm, 1}, {y, mm, gDaysIn(y, mm)}, {y, 3, 1}, {y, 3, 31}, {y, 5, 31}, {y, 1, 1}})
+				case "year":
+					b = Pick(r, []ymd{{y, 1, 1}, {y, 12, 31}, {y, 2, 28}})
+				default:
+					b = ymd{y, r.Range(1, 12), r.Range(1, 28)}
+					b, _ = b.plus(1 - oracleWeekday(b.y, b.m, b.d))
+					if r.P(1, 2) {
+						b, _ = b.plus(6)
+					}
+				}
+				today = b
+				base, _ := today.plus(-Pick(r, []int{100, 200, 400, 20}))
+				doc = GenDoc(r, DocOpts{CleanText: true, Window: Pick(r, []int{120, 220, 420, 40}), Base: [3]int{base.y, base.m, base.d}, MinRecords: 3, MaxRecords: 7})
+			}
+			f := genFlags(r, doc, today, force)
 			return map[string]any{"text": hx(doc.Text), "cli": f.cli, "model": f.model, "today": []int{today.y, today.m, today.d},
 				"expect": oracleFilter(doc, f), "sort": f.sort, "desc": f.desc, "nrec": len(doc.Records)}
 		},
